@@ -378,6 +378,16 @@ impl Property for C09 {
                 _ => {}
             }
         }
+        // now and then the children are real processes, and find's working directory is so
+        // deep that its absolute path does not fit PATH_MAX (relative names keep working)
+        let real = !mutate && rng.chance(1, 25);
+        if real {
+            find.real_children = true;
+            find.long_cwd = if rng.chance(2, 3) { Some(*rng.pick(&[2000usize, 3900, 4090, 4100, 4600, 6000])) } else { None };
+            find.starts_via_file = false;
+            find.outcomes.retain(|o| matches!(o, Outcome::Exit(_) | Outcome::Signal(..)));
+            find.ambient.stdout_tty = false;
+        }
         let mut sc = Sc {
             find,
             starts,
@@ -388,8 +398,8 @@ impl Property for C09 {
             templates,
             after,
             mindepth1,
-            follow: if !mutate && rng.chance(1, 5) { Some(rng.pick(&["-L", "-H"]).to_string()) } else { None },
-            second: if rng.chance(1, 4) { Some((rng.chance(1, 2), rng.pick(&["{}", "{}", "x{}y", "{}{}"]).to_string())) } else { None },
+            follow: if !mutate && !real && rng.chance(1, 5) { Some(rng.pick(&["-L", "-H"]).to_string()) } else { None },
+            second: if rng.chance(1, 4) && !real { Some((rng.chance(1, 2), rng.pick(&["{}", "{}", "x{}y", "{}{}"]).to_string())) } else { None },
             near_limit: None,
         };
         sc.render();
@@ -423,13 +433,15 @@ impl Property for C09 {
             }
             None => sc,
         };
-        let root = ctx.scratch.join("A");
-        let _ = std::env::set_current_dir(&ctx.scratch);
-        crate::sys::wipe(&root);
-        std::fs::create_dir_all(&root).expect("scratch root");
-        if let Err(e) = tree::build(&root, &sc.find.tree) {
-            rep.fail("C09.HARNESS-tree-build", format!("cannot build tree: {e}"));
-            return;
+        let root = match crate::find::place_tree(&sc.find, ctx) {
+            Ok(r) => r,
+            Err(e) => {
+                rep.fail("C09.HARNESS-tree-build", e);
+                return;
+            }
+        };
+        if let Some(len) = sc.find.long_cwd {
+            rep.probe(if len + 300 > 4096 { "working_directory_path_beyond_path_max" } else { "working_directory_path_thousands_of_bytes" });
         }
         let mutated = !sc.find.mutations.is_empty();
         let mut rw = RefWalk::default();
@@ -452,8 +464,18 @@ impl Property for C09 {
             }
         }
         let obs = run_find_prebuilt(&sc.find, ctx, root);
+        if sc.find.long_cwd.is_some() {
+            crate::find::leave_long_cwd(ctx);
+        }
         rep.executions += 1;
         account_find(&obs, rep);
+        if sc.find.real_children {
+            rep.probe("real_child_processes");
+            if let Some((class, detail)) = crate::find::judge_real_children(&sc.find, &obs) {
+                rep.fail(format!("C09.{class}"), detail);
+                return;
+            }
+        }
         if sc.execdir {
             rep.probe("execdir");
             if sc.starts.iter().any(|s| s.trim_start_matches("./").trim_end_matches('/').contains('/')) {
